@@ -53,6 +53,21 @@ def sweeps(tier):
                 cases.append({'t': 'msg', 'framing': framing, 'kind': 'rsp:3', 'fields': {'registers': [0x1234, 5]},
                               'uid': uid, 'tid': tid, 'pid': 0})
     out.append(('all-unit-ids-x-framings', cases, True))
+    # the largest legal messages of every variable-length kind, and one size below
+    cases = []
+    for framing in refframe.FRAMINGS:
+        for d in (0, 1, 2):
+            big = [('rsp:3', {'registers': [(i * 7 + 1) & 0xFFFF for i in range(125 - d)]}),
+                   ('rsp:1', {'bits': [bool(i % 3) for i in range(2000 - 8 * d)]}),
+                   ('rsp:2', {'bits': [bool(i % 5) for i in range(1985 + d)]}),
+                   ('req:16', {'address': 1, 'registers': [(i * 5 + 2) & 0xFFFF for i in range(123 - d)]}),
+                   ('req:15', {'address': 1, 'bits': [bool(i % 2) for i in range(1968 - 8 * d)]}),
+                   ('req:23', {'read_address': 1, 'read_quantity': 125, 'write_address': 2, 'registers': [(i + 3) & 0xFFFF for i in range(121 - d)]}),
+                   ('rsp:23', {'registers': [(i * 3) & 0xFFFF for i in range(125 - d)]}),
+                   ('rsp:12', {'status_word': 0, 'event_count': 1, 'message_count': 2, 'events': [i & 0x7F for i in range(64 - d)]})]
+            for kind, f in big:
+                cases.append({'t': 'msg', 'framing': framing, 'kind': kind, 'fields': f, 'uid': 0x11, 'tid': 0x0102, 'pid': 0})
+    out.append(('largest-legal-messages-x-framings', cases, True))
     # checkCRC / checkLRC accept exactly the matching value: all candidates for a few strings
     strings = [b'', b'\x00', b'\x01\x03\x00\x00\x00\x0a', bytes(range(40)), b'\xff' * 17]
     cases = [{'t': 'sum-all', 'data': s.hex()} for s in strings[:5 if tier == 'thorough' else 2]]
